@@ -254,7 +254,23 @@ pub fn run_realheap(seed: u64, budget_events: u64, out: &mut RunOut) {
             let what = match rng.below(12) {
                 0..=3 => { let cap = match rng.below(4) { 0 => 0, 1 => c.max_size().saturating_sub(c.current_size()).saturating_sub(e0 + 8).min(4096), _ => rng.usize_below(120) }; let mut v = Vec::with_capacity(cap); for _ in 0..rng.usize_below(cap + 1).min(16) { v.push(7u8); } let _ = c.insert(key(id), v); format!("insert k{} cap {}", id, cap) }
                 4 => { let _ = c.try_insert(key(id), vec![0u8; rng.usize_below(64)]); format!("try_insert k{}", id) }
-                5 | 6 => { let grow = rng.usize_below(200); let _ = c.mutate(&key(id), |v| { match grow % 4 { 0 => v.reserve(grow), 1 => { v.truncate(grow % 3); v.shrink_to_fit(); } 2 => v.extend(std::iter::repeat(1u8).take(grow)), _ => { v.clear(); } } }); format!("mutate k{} variant {} by {}", id, grow % 4, grow) }
+                5 | 6 => {
+                    let grow = rng.usize_below(200);
+                    let r = c.mutate(&key(id), |v| { match grow % 5 { 0 => v.reserve(grow), 1 => { v.truncate(grow % 3); v.shrink_to_fit(); } 2 => v.extend(std::iter::repeat(1u8).take(grow)), 3 => { v.clear(); } _ => { if let Some(x) = v.first_mut() { *x ^= 1; } } } });
+                    // C11: a completed mutate "updates its accounted size to the new value's size" - also when the record was
+                    // out of date before (a clone that copied the records of differently sized originals, D7)
+                    if let Ok(Some(())) = r {
+                        let w = c.verif_walk(c.len() + 4);
+                        for n in &w.forward {
+                            let (k, v) = unsafe { (&*n.key, &*n.value) };
+                            if *k == key(id) {
+                                out.stats.eval("C11", mix(&[4011, (grow % 5) as u64, stale as u64, (n.size == entry_size(k, v)) as u64]));
+                                out.stats.count(if stale { "c11_realheap_mutates_in_stale_clone" } else { "c11_realheap_mutates" });
+                                if n.size != entry_size(k, v) { fail(out, "C11", "realheap-mutate-record", format!("String/Vec<u8> cache: after a completed `mutate k{} variant {}` the size recorded for the entry is {}, entry_size(key, value) = {}", id, grow % 5, n.size, entry_size(k, v)), &cfg, log.join("; ")); }
+                            }
+                        }
+                    }
+                    format!("mutate k{} variant {} by {}", id, grow % 5, grow) }
                 7 => { c.remove(&key(id)); format!("remove k{}", id) }
                 8 => { c.get(key(id).as_str()); format!("get k{} (borrowed str)", id) }
                 9 => { let m = match rng.below(4) { 0 => c.current_size(), 1 => c.current_size().saturating_sub(1), 2 => max, _ => rng.usize_below(c.current_size() + 100) }; c.set_max_size(m); format!("set_max_size {}", m) }
